@@ -176,14 +176,14 @@ def _opt_worker(args):
     # ... and another process environment: POSIX locale without UTF-8 mode (text defaults to ASCII), another working directory
     env.update({"LC_ALL": "C", "LANG": "C", "PYTHONUTF8": "0", "PYTHONCOERCECLOCALE": "0"})
     try:
-        p = subprocess.run([sys.executable, "-OO", "-W", "error", "-c", "from vf.runner import opt_child; opt_child()", modname, tier, str(seed), os.environ["VF_REPO"]],
+        p = subprocess.run([sys.executable, "-OO", "-bb", "-W", "error", "-c", "from vf.runner import opt_child; opt_child()", modname, tier, str(seed), os.environ["VF_REPO"]],
                            input=jdump(part).encode(), capture_output=True, env=env, cwd="/", timeout=3600)
         if p.returncode != 0:
             return ("err", "partition %r under python -O: exit %d: %s" % (part, p.returncode, p.stderr.decode()[-800:]))
         st, acc = pickle.loads(p.stdout)
         if st != "ok":
             return (st, acc)
-        acc.viol = {"python-O/" + k: [c, "[under python -OO -W error] " + w, [["-O", x] for x in cs]] for k, (c, w, cs) in acc.viol.items()}
+        acc.viol = {"python-O/" + k: [c, "[under python -OO -bb -W error] " + w, [["-O", x] for x in cs]] for k, (c, w, cs) in acc.viol.items()}
         acc.extra = {"python_O_partitions": 1, "python_O_evaluations": acc.evaluations}
         acc.nontrivial = {hash(("-O", h)) for h in acc.nontrivial}
         acc.samples = []
@@ -248,7 +248,7 @@ def main(argv=None):
                 env = dict(os.environ)
                 env["PYTHONPATH"] = ROOT
                 env["PYTHONHASHSEED"] = "20261003"
-                p = subprocess.run([sys.executable, "-OO", "-W", "error", "-c",
+                p = subprocess.run([sys.executable, "-OO", "-bb", "-W", "error", "-c",
                                     "import sys, json, io, logging; logging.basicConfig(level=logging.DEBUG, stream=io.StringIO(), force=True); "
                                     "from vf import runner; runner.setup_repo(sys.argv[2]); import importlib; "
                                     "m = importlib.import_module(sys.argv[1]); print(runner.jdump(m.replay(json.loads(sys.stdin.read()))))",
@@ -256,7 +256,7 @@ def main(argv=None):
                 if p.returncode != 0:
                     sys.stderr.write(p.stderr.decode()[-2000:])
                     return 2
-                viols = [("python-O/" + k, "[under python -OO -W error] " + w) for k, w in json.loads(p.stdout.decode().strip().splitlines()[-1])]
+                viols = [("python-O/" + k, "[under python -OO -bb -W error] " + w) for k, w in json.loads(p.stdout.decode().strip().splitlines()[-1])]
             else:
                 viols = mod.replay(case)
         except Exception:
